@@ -71,7 +71,7 @@ theorem C11_reposition_correct (cur : List Ent) (pos : Option Nat) :
 
 /-! ### What a stepped index slice selects -/
 
-theorem stride_getElem? (k : Nat) (hk : 0 < k) (l : List Ent) (n : Nat) : (stride k l)[n]? = l[n * k]? := by
+theorem stride_getElem_opt (k : Nat) (hk : 0 < k) (l : List Ent) (n : Nat) : (stride k l)[n]? = l[n * k]? := by
   fun_induction stride k l generalizing n with
   | case1 => simp
   | case2 x xs ih =>
@@ -86,7 +86,7 @@ theorem stride_getElem? (k : Nat) (hk : 0 < k) (l : List Ent) (n : Nat) : (strid
 `n`-th entry is entry `i + n·k` of the entries before `j`, and it ends where those end. -/
 theorem C11_stride_meaning (i j k : Nat) (hk : 0 < k) (sel : List Ent) (n : Nat) :
     (stride k ((sel.take j).drop i))[n]? = (sel.take j)[i + n * k]? := by
-  rw [stride_getElem? k hk, List.getElem?_drop]
+  rw [stride_getElem_opt k hk, List.getElem?_drop]
 
 /-! ### No message twice: the cursor only moves forward between rewinds and seeks -/
 
